@@ -74,6 +74,34 @@ def apply(name):
         pr.Screen.signal_restore = lambda self: None
     elif name == "exit-not-suppressed":
         ml.MainLoop.run = lambda self: self._run()
+    elif name in ("size-forgotten-for-lone-resize-only", "size-forgotten-for-trailing-resize-only", "size-never-forgotten"):
+        # the cached screen size survives a resize that shares its batch with other events (both input paths)
+        def stale(keys):
+            if name == "size-forgotten-for-lone-resize-only":
+                return list(keys) != ["window resize"]
+            if name == "size-forgotten-for-trailing-resize-only":
+                return not (keys and keys[-1] == "window resize")
+            return True
+
+        def _update(self, keys, raw):
+            if keys := self.input_filter(keys, raw):
+                self.process_input(keys)
+                if "window resize" in keys and not stale(keys):
+                    self.screen_size = None
+
+        ml.MainLoop._update = _update
+        orig_filter = ml.MainLoop.input_filter
+
+        def input_filter(self, keys, raw):  # _run_screen_event_loop: hide the marker from its own `in keys` test
+            out = orig_filter(self, keys, raw)
+
+            class L(list):
+                def __contains__(s, x):
+                    return list.__contains__(s, x) and not (x == "window resize" and stale(list(s)))
+
+            return L(out)
+
+        ml.MainLoop.input_filter = input_filter
     else:
         raise ValueError(name)
 
@@ -85,18 +113,21 @@ EXPECT = {
     "no-stop-on-exception": "C12/display-stopped",
     "swallow-exceptions": "C12/exit",
     "wrap-exceptions": "C12/exit",
-    "no-termios-restore": "C12/terminal-modes",
+    "no-termios-restore": "C12/tty-settings",
     "keep-mouse-on": "C12/terminal-modes",
     "keep-cursor-hidden": "C12/terminal-modes",
-    "keep-sigwinch": "C12/terminal-modes",
+    "keep-sigwinch": "C12/signal-handlers",
     "exit-not-suppressed": "C12/exit",
+    "size-forgotten-for-lone-resize-only": "C12/redraw",
+    "size-forgotten-for-trailing-resize-only": "C12/redraw",
+    "size-never-forgotten": "C12/redraw",
 }
 
 
 def main():
     import bounded.C12 as b
 
-    sess = b.make_session("KMTPRL", cycles=2)
+    sess = b.make_session("KMTPXRLYW", cycles=2)
     ok_all = True
     for name, check in EXPECT.items():
         red = {}
@@ -109,6 +140,7 @@ def main():
                     case = {"screen": screen, "loop": loop, "pop_ups": False, "session": ses, "inject": inj, "mutate": name}
                     if screen == "pty":
                         case["pty"] = b.PTY_CFGS[3]
+                        case["session"] = b.for_pty(ses)
                     res = b.run_cases([case])[0]
                     for k, (ok, why, _nt) in b.judge(case, res).items():
                         if not ok:
